@@ -9,6 +9,7 @@ from sa.model import AnalysisError
 from . import sockrules as S
 from . import srvrules as R
 from .seq import PV
+from .common import placeholder_bind
 
 from .meta import meta
 META = meta('C18', level='other', extra_tb=None)
@@ -61,8 +62,10 @@ def tokens(A, fi, ctx):
     en = A.enum(opaque=opaque, max_paths=150000, refine_raises=False, keep=keep, loop_bound=1)
     out = set()
     for p in A.paths(en, fi, ctx):
-        for e in p.events:
+        for i, e in enumerate(p.events):
             if e.depth != 0:
+                continue
+            if e.kind == 'bind' and placeholder_bind(p, i):
                 continue
             if e.kind == 'guard' and e.cls != 'decided':
                 a, pl = atom(e.expr, e.pol)
